@@ -87,6 +87,8 @@ mod node;
 mod nodes_selector;
 mod rpc;
 mod statistics;
+#[cfg(feature = "verif")]
+pub mod verif;
 
 use std::borrow::Cow;
 use std::collections::{BTreeMap, BTreeSet};
